@@ -871,7 +871,8 @@ pub fn drive(args: &[String]) {
                 11 => json!({"op":"contains","k":k,"n":0,"fail":false}),
                 12 => json!({"op":"get_mut","k":k,"n":0,"fail":false}),
                 13..=15 => json!({"op":"entry","k":k,"n":0,"fail":fail}),
-                16 => json!({"op":"reserve","k":"-","n":rng.below(9),"fail":fail}),
+                // mostly a few slots; now and then hundreds or thousands (capacity rounding at sizes growth never requests)
+                16 => json!({"op":"reserve","k":"-","n": if rng.below(4) == 0 { 290 + rng.below(2200) } else { rng.below(9) },"fail":fail}),
                 17 => {
                     if rng.chance(1, 5) {
                         json!({"op":"clear","k":"-","n":0,"fail":false})
